@@ -657,6 +657,8 @@ pub fn gen_c11(rng: &mut Prng, thorough: bool, out: &mut Out) {
             out.case(g1, &format!("scdk_decrypt {} q{}", ct, hs(&(u * wrong))));
             out.case(g1, &format!("scct_decrypt {} s00", ct));
         }
+        let k = rng.scalar();
+        prefix_edges(rng, g1, &k, out);
     }
 }
 
@@ -795,6 +797,8 @@ pub fn gen_c13(rng: &mut Prng, thorough: bool, out: &mut Out) {
             dec(out, &u, &v, &w[..1], scheme, scheme, &sig);
         }
         out.case(g1, &format!("pk_encrypt_time_lock q00 cbasic x00 x00 x{}", hx(&rng.bytes(32))));
+        let k = rng.scalar();
+        prefix_edges(rng, g1, &k, out);
     }
 }
 
@@ -1155,6 +1159,59 @@ pub fn gen_c16(rng: &mut Prng, thorough: bool, out: &mut Out) {
     }
 }
 
+
+/// VALID ciphertexts whose decrypted payload starts with a crafted length prefix at the arithmetic
+/// edges of the parser (u64/usize boundaries, values that wrap when truncated, 19-byte encodings)
+pub fn prefix_edges(rng: &mut Prng, g1: bool, sk: &RScalar, out: &mut Out) {
+    let sk = *sk;
+        {
+            let msg = rng.bytes(40);
+            let seed = rng.bytes(32);
+            let d = dst(g1, 2);
+            let (u, v, _w) = sc_seal_ref(g1, &sk, &msg, &d, &seed);
+            let fr = frame(&msg);
+            let ksm: Vec<u8> = xor(&v, &fr);
+            let edge: Vec<u128> = vec![
+                u64::MAX as u128, u64::MAX as u128 - 1, u64::MAX as u128 - 9, u64::MAX as u128 - 10, 1u128 << 63, (1u128 << 63) - 1,
+                1u128 << 32, 1u128 << 64, (1u128 << 64) + 5, (1u128 << 64) + 39, u128::MAX, 1u128 << 127, 41, 40, 39, 31, 30,
+                v.len() as u128, v.len() as u128 - 1, v.len() as u128 - 2, 0x3fff, 0x4000,
+            ];
+            for x in edge {
+                let pre = leb128(x);
+                let mut v2 = v.clone();
+                for i in 0..pre.len().min(v2.len()) {
+                    v2[i] = ksm[i] ^ pre[i];
+                }
+                let mut t = crate::refs::sc_enc_pk(g1, &u);
+                t.extend_from_slice(&v2);
+                let w2 = eta(&t, &d) * u;
+                let ct = ct_tok(&u, &v2, &w2, 2);
+                out.case(g1, &format!("scct_decrypt {} s{}", ct, hs(&sk)));
+                out.case(g1, &format!("scdk_decrypt {} q{}", ct, hs(&(u * sk))));
+                // the same crafted prefix in a time-lock payload (opened with the right signature)
+                let id = b"edge".to_vec();
+                let (tu, tv, tw) = tl_seal_ref(g1, &sk, &msg, &id, &d, &seed);
+                let tks: Vec<u8> = xor(&tw, &fr);
+                let mut tw2 = tw.clone();
+                for i in 0..pre.len().min(tw2.len()) {
+                    tw2[i] = tks[i] ^ pre[i];
+                }
+                out.case(g1, &format!("tlct_decrypt q{} x{} x{} cpop cpop p{}", hs(&tu), hx(&tv), hx(&tw2), hs(&sig_dlog(g1, 2, &sk, &id))));
+            }
+            // 19 continuation bytes / an unterminated prefix
+            for pre in [vec![0xffu8; 19], vec![0x80u8; 18], { let mut p = vec![0xffu8; 18]; p.push(0x7f); p }] {
+                let mut v2 = v.clone();
+                for i in 0..pre.len().min(v2.len()) {
+                    v2[i] = ksm[i] ^ pre[i];
+                }
+                let mut t = crate::refs::sc_enc_pk(g1, &u);
+                t.extend_from_slice(&v2);
+                let w2 = eta(&t, &d) * u;
+                out.case(g1, &format!("scct_decrypt {} s{}", ct_tok(&u, &v2, &w2, 2), hs(&sk)));
+            }
+        }
+}
+
 pub fn gen_c17(rng: &mut Prng, thorough: bool, out: &mut Out) {
     for g1 in [true, false] {
         for (t, e) in valid_encodings(rng, g1, if thorough { 4 } else { 2 }) {
@@ -1199,6 +1256,7 @@ pub fn gen_c17(rng: &mut Prng, thorough: bool, out: &mut Out) {
             out.case(g1, &format!("scdk_decrypt {} q{}", ct, hs(&rng.scalar())));
             out.case(g1, &format!("tlct_decrypt q{} x{} x{} cbasic cbasic p{}", hs(&rng.scalar()), hx(&rng.bytes(32)), hx(&v), hs(&rng.scalar())));
         }
+        prefix_edges(rng, g1, &sk, out);
         // honest ciphertexts whose plaintext length prefix is corrupted to every one-byte value
         let msg = rng.bytes(5);
         let seed = rng.bytes(32);
